@@ -111,6 +111,7 @@ const (
 	c10Drain      = 1500 * time.Millisecond
 	c10DrainShort = 250 * time.Millisecond // same
 	c10Probe      = 30 * time.Millisecond  // a thread expected to block: how long it is watched
+	c10SlowCap    = 90 * time.Second       // a released thread that is not waiting for anything gets this long
 )
 
 // the one build time stamp of "mt":"fixed"
@@ -142,7 +143,39 @@ type c10Thr struct {
 	started bool
 	fin     bool
 	res     c10Thread
-	cpark   atomic.Bool // park at the next FuncProvider call
+	cpark   atomic.Bool  // park at the next FuncProvider call
+	gid     atomic.Int64 // its goroutine id, once the goroutine runs
+}
+
+// c10Waiting tells, after the bound of a step has passed, whether the goroutine of a released thread is
+// really WAITING (for a lock, a channel) or has only not got far yet on a busy machine: its state is read
+// from the runtime's goroutine dump.  Only a waiting goroutine is reported stuck; a running, runnable or
+// not yet started one gets more time (up to c10SlowCap).  "stuck" is thus an observation of the state of
+// the goroutine, not of the speed of the machine.
+func c10Waiting(th *c10Thr) bool {
+	id := th.gid.Load()
+	if id == 0 {
+		return false // the goroutine has not run its first instruction yet
+	}
+	buf := make([]byte, 1<<20)
+	n := runtime.Stack(buf, true)
+	dump := "\n" + string(buf[:n])
+	key := fmt.Sprintf("goroutine %d [", id)
+	k := strings.Index(dump, "\n"+key)
+	if k < 0 {
+		return false // gone: its result is on the way
+	}
+	rest := dump[k+1+len(key):]
+	end := strings.IndexAny(rest, "],")
+	if end < 0 {
+		return false
+	}
+	switch st := rest[:end]; {
+	case strings.HasPrefix(st, "semacquire"), strings.HasPrefix(st, "sync."), strings.HasPrefix(st, "chan "),
+		st == "select":
+		return true
+	}
+	return false
 }
 
 var (
@@ -162,6 +195,15 @@ func c10Hook(point string) {
 	}
 	th.parked <- point
 	<-th.resume
+}
+
+// two looks, 200 ms apart: a goroutine that passes through a briefly contended mutex is not waiting
+func c10ReallyWaiting(th *c10Thr) bool {
+	if !c10Waiting(th) {
+		return false
+	}
+	time.Sleep(200 * time.Millisecond)
+	return c10Waiting(th)
 }
 
 // c10Compile is called from the engine's FuncProvider: once per template file compileDir is about to compile
@@ -361,6 +403,7 @@ func runC10(c c10Case) (obs c10Obs, err error) {
 			c10mu.Lock()
 			c10byGoid[id] = th
 			c10mu.Unlock()
+			th.gid.Store(id)
 			gm.Lock()
 			goids = append(goids, id)
 			gm.Unlock()
@@ -429,22 +472,32 @@ func runC10(c c10Case) (obs c10Obs, err error) {
 		if ev.B {
 			bound = c10Probe
 		}
-		select {
-		case p := <-th.parked:
-			parkedAt[i], parkedIn[i] = true, p
-			obs.Steps = append(obs.Steps, c10Point(p))
-		case r := <-th.done:
-			th.fin, th.res = true, r
-			obs.Steps = append(obs.Steps, "done")
-		case <-time.After(bound):
-			if ev.B {
-				obs.Steps = append(obs.Steps, "blocked")
+		for waited := time.Duration(0); ; waited += bound {
+			again := false
+			select {
+			case p := <-th.parked:
+				parkedAt[i], parkedIn[i] = true, p
+				obs.Steps = append(obs.Steps, c10Point(p))
+			case r := <-th.done:
+				th.fin, th.res = true, r
+				obs.Steps = append(obs.Steps, "done")
+			case <-time.After(bound):
+				if ev.B {
+					obs.Steps = append(obs.Steps, "blocked")
+					break
+				}
+				if waited < c10SlowCap && !c10ReallyWaiting(th) {
+					again = true // busy machine: the goroutine is running or runnable, not waiting
+					break
+				}
+				c10StuckSeen++
+				obs.Steps = append(obs.Steps, "stuck")
+				th.res = c10Thread{Class: "stuck"}
+				abandoned = true
+			}
+			if !again {
 				break
 			}
-			c10StuckSeen++
-			obs.Steps = append(obs.Steps, "stuck")
-			th.res = c10Thread{Class: "stuck"}
-			abandoned = true
 		}
 	}
 	// end of schedule (or abandoned): open all hooks, collect what returns
